@@ -6,7 +6,7 @@ open PMF Comms
 /-
 line protocol (whitespace separated tokens, one observation line per input line):
 
-  case <prog> <fail>          prog: a program of `PMF.progOf`; fail: `-` | `<idx>:<ExceptionClass>` (broadcast_send raises it
+  case <prog> <fail>          prog: a program of `Comms.progOf`; fail: `-` | `<idx>:<ExceptionClass>` (broadcast_send raises it
                               at that transition index)         -> observation of the construction
   tick stepper | tick trykill | tick adone <f>                  a callback of the process ran
   tick recv <id>              the subscriber callback of message <id> ran (message_receive / broadcast_receive)
@@ -78,15 +78,6 @@ def parseFail (s : String) : Option Oracle :=
   | [i, cls] => i.toNat?.map fun n => failAt n cls
   | _ => none
 
-/-- programs of this component's corpus in addition to `PMF.progOf` (longer steps, so that messages sent at any position
-    find the process inside a step, between steps, waiting, …) -/
-def progOf : String → Prog
-  | "Async6" => fun fn _ _ _ => if fn = 0 then ⟨5, .ret (.cont 1 [] [])⟩ else ⟨4, .ret (.stop (some 3) true)⟩
-  | "WaitAsync4" => fun fn _ _ _ => if fn = 0 then ⟨4, .ret (.wait 1)⟩ else ⟨4, .ret (.stop (some 7) true)⟩
-  | "Failing5" => fun _ _ _ _ => ⟨5, .raise (.user 0)⟩
-  | "Sync4" => fun fn _ _ _ => if fn < 3 then ⟨0, .ret (.cont (fn + 1) [] [])⟩ else ⟨0, .ret (.stop (some 3) true)⟩
-  | name => PMF.progOf name
-
 partial def loop (h : IO.FS.Stream) (O : Oracle) (P : Prog) (c : Comms.Cfg) : IO Unit := do
   let ln ← h.getLine
   if ln.isEmpty then return ()
@@ -96,10 +87,10 @@ partial def loop (h : IO.FS.Stream) (O : Oracle) (P : Prog) (c : Comms.Cfg) : IO
       match parseFail fail with
       | none => IO.println "bad"; loop h O P c
       | some O' =>
-        let c' := create O' name "pid"
+        let c' := create O' 0 "pid"
         let blank : Comms.Cfg := {}
         IO.println (line blank c' (.ret .none))
-        loop h O' (DrvComms.progOf name) c'
+        loop h O' (Comms.progOf name) c'
   | ["end"] => IO.println (endLine c); loop h O P c
   | _ =>
     match parseEv toks with
@@ -109,5 +100,5 @@ partial def loop (h : IO.FS.Stream) (O : Oracle) (P : Prog) (c : Comms.Cfg) : IO
       IO.println (line c c' o)
       loop h O P c'
 
-def main : IO Unit := do loop (← IO.getStdin) allOk (PMF.progOf "") {}
+def main : IO Unit := do loop (← IO.getStdin) allOk (Comms.progOf "") {}
 end DrvComms
